@@ -76,7 +76,16 @@ def drive(ctx):
                 w[2] = 28
         zr = (UTCZ, NAIVE, {"n": "", "fo": rnd.randrange(-86399, 86400)})[k % 3]
         u = UNITS[k % 9]
+        # the two setters are called in either order, or only one of them (the other bound keeps its default)
+        order = ("se", "es", "s", "e")[k % 4]
+
+        def oc(c):
+            return {"ws": c["ws"], "we": 6} if order == "s" else ({"ws": 0, "we": c["we"]} if order == "e" else c)
+
         for opn in ("start_of", "end_of"):
-            ctx.emit(opn, {"unit": u, "cfg": cfg(k // 9), "how": "raw0"}, [mk_dt(zr, w, 0)])
+            ctx.emit(opn, {"unit": u, "cfg": oc(cfg(k // 9)), "how": "raw0", "order": order}, [mk_dt(zr, w, 0)])
             du = DUNITS[k % 6]
-            ctx.emit(opn, {"unit": du, "cfg": cfg(k // 6), "how": "date"}, [{"k": "date", "w": w[:3], "cls": "Date"}])
+            ctx.emit(opn, {"unit": du, "cfg": oc(cfg(k // 6)), "how": "date", "order": order}, [{"k": "date", "w": w[:3], "cls": "Date"}])
+            if k % 3 == 0:       # weeks in particular
+                ctx.emit(opn, {"unit": "week", "cfg": oc(cfg(k)), "how": "raw0", "order": order}, [mk_dt(zr, w, 0)])
+                ctx.emit(opn, {"unit": "week", "cfg": oc(cfg(k + 1)), "how": "date", "order": order}, [{"k": "date", "w": w[:3], "cls": "Date"}])
